@@ -33,6 +33,8 @@ THEOREMS = [
     "Optyx.Props.C09b.scipy_hessian_faithful",
     "Optyx.Props.C09b.con_sign_meaning",
     "Optyx.Props.C09b.reported_objective",
+    "Optyx.Props.Dispatch.autoSelect_eq_generated",
+    "Optyx.Props.Dispatch.route_eq_generated",
     "Optyx.Props.Glue.glue_sources",
     "Optyx.Props.Glue.glue_call_site",
     "Optyx.Props.Glue.conRow_table",
